@@ -72,6 +72,7 @@ def replay(contract, ov, res, prop):
         return dict(reproduced=False, detail="no concretiser for this obligation", case=None)
     if isinstance(case, dict) and "__error__" in case:
         return dict(reproduced=False, detail="concretiser failed: %s" % case["__error__"], case=None)
+    case = dict(case, obligation=res.get("name", ""))       # harnesses with several probes pick by the failed clause
     out = run_harness(case["harness"], case)
     out["case"] = case
     return out
@@ -84,6 +85,7 @@ def rerun(path):
         print("replay file carries no concrete case; obligation=%s" % rec.get("obligation"))
         print((rec.get("solver_output") or "")[:2000])
         return 1
+    case = dict(case, obligation=res.get("name", ""))       # harnesses with several probes pick by the failed clause
     out = run_harness(case["harness"], case)
     print(json.dumps(out, indent=1))
     if out.get("reproduced"):
